@@ -22,6 +22,10 @@ static size_t stride;
 static char* arena;
 static char* nodepool; static size_t nodepool_used; static const size_t NODEPOOL = 1 << 20;
 static char* next_real;                              // where the next alloc_memory / realloc has to put its block
+// failure injection (ops :af / :rf): which underlying call answers NULL.  1 = the block (alloc_memory / PlatformSpecificRealloc),
+// 2 = the separate bookkeeping record (allocMemoryLeakNode); from the first refused call on the allocator stays out of memory
+static int failWhich;
+static char scratchBlock[CAP + 64];                  // the block alloc_memory hands out when only the record is to fail
 
 static char* real_of(unsigned long long a)
 {
@@ -45,6 +49,8 @@ public:
     ArenaAllocator(const char* n, const char* a, const char* f) : TestMemoryAllocator(n, a, f) {}
     char* alloc_memory(size_t size, const char*, size_t) override
     {
+        if (failWhich == 1) return nullptr;
+        if (failWhich == 2 && size <= CAP) { memset(scratchBlock, 'A', size); return scratchBlock; }
         if (size > CAP || !next_real) { fprintf(stderr, "harness: block of %lu bytes / no address\n", (unsigned long)size); exit(3); }
         char* p = next_real; next_real = nullptr;
         memset(p, 'A', size);
@@ -53,6 +59,7 @@ public:
     void free_memory(char*, size_t, const char*, size_t) override {}
     char* allocMemoryLeakNode(size_t size) override
     {
+        if (failWhich == 2) return nullptr;
         size = (size + 15) & ~(size_t)15;
         if (nodepool_used + size > NODEPOOL) { fprintf(stderr, "harness: node pool exhausted\n"); exit(3); }
         char* p = nodepool + nodepool_used; nodepool_used += size; return p;
@@ -61,6 +68,7 @@ public:
 };
 static void* arena_realloc(void* mem, size_t size)
 {
+    if (failWhich) return nullptr;                   // the old block stays where it is, untouched
     if (size > CAP || !next_real) { fprintf(stderr, "harness: realloc of %lu bytes / no address\n", (unsigned long)size); exit(3); }
     char* p = next_real; next_real = nullptr;
     if (mem && mem != p) memmove(p, mem, size);
@@ -68,30 +76,33 @@ static void* arena_realloc(void* mem, size_t size)
     return p;
 }
 
+static std::vector<std::string> fileNames;     // filled once in main (the detector keeps the pointers): f<id>.c, and for ids >= 0x80 long names
+                                               // f<id>_LLL...L.c of 12 to 140 characters so that few entries fill the report buffer
+static const char* fileName(unsigned id) { if (id >= fileNames.size()) { fprintf(stderr, "harness: file id\n"); exit(3); } return fileNames[id].c_str(); }
+
 struct Recorder : public MemoryLeakFailure
 {
     int nonalloc = 0, other = 0;
     void fail(char* s) override { if (strstr(s, "Deallocating non-allocated memory")) nonalloc++; else other++; }
 };
 
-static std::vector<std::string> fileNames;     // filled once in main: the detector keeps the pointers
-static const char* fileName(unsigned id) { if (id >= fileNames.size()) { fprintf(stderr, "harness: file id\n"); exit(3); } return fileNames[id].c_str(); }
 
 struct Entry { long long addr; unsigned long size; unsigned number; unsigned file; int line; int kind; };
 static void parseReport(const char* txt, Out& o)
 {
     bool noleaks = strstr(txt, "No memory leaks were detected") != nullptr;
     bool many = strstr(txt, "Too many memory leaks to report") != nullptr;
+    bool mnote = strstr(txt, "Memory leak reports about malloc and free") != nullptr;
     long total = 0;
     const char* ft = strstr(txt, "Total number of leaks:");
     if (ft) total = strtol(ft + strlen("Total number of leaks:"), nullptr, 10);
     std::vector<Entry> es;
     for (const char* p = strstr(txt, "Alloc num ("); p; p = strstr(p + 1, "Alloc num (")) {
-        Entry e; char file[64], type[32]; void* mem = nullptr; int n = -1;
-        if (sscanf(p, "Alloc num (%u) Leak size: %lu Allocated at: %63s and line: %d. Type: \"%31[^\"]\"\n\tMemory: <%p> Content:%n",
+        Entry e; char file[256], type[32]; void* mem = nullptr; int n = -1;
+        if (sscanf(p, "Alloc num (%u) Leak size: %lu Allocated at: %255s and line: %d. Type: \"%31[^\"]\"\n\tMemory: <%p> Content:%n",
                    &e.number, &e.size, file, &e.line, type, &mem, &n) != 6 || n < 0) continue;
         unsigned fid = 0xffff; int m = -1;
-        if (sscanf(file, "f%x.c%n", &fid, &m) != 1 || m != (int)strlen(file)) fid = 0xffff;
+        if (sscanf(file, "f%x%n", &fid, &m) != 1 || m < 0 || fid >= fileNames.size() || fileNames[fid] != file) fid = 0xffff;
         e.file = fid;
         e.kind = !strcmp(type, "new") ? 0 : !strcmp(type, "new []") ? 1 : !strcmp(type, "malloc") ? 2 : 0xff;
         e.addr = scen_of(mem);
@@ -99,7 +110,7 @@ static void parseReport(const char* txt, Out& o)
     }
     std::sort(es.begin(), es.end(), [](const Entry& a, const Entry& b) {
         return std::make_tuple(a.number, a.addr, a.size, a.file, a.line, a.kind) < std::make_tuple(b.number, b.addr, b.size, b.file, b.line, b.kind); });
-    o << "R" << (noleaks ? "1" : "0") << (many ? "1" : "0") << hx((unsigned long long)total) << hx(es.size());
+    o << "R" << (noleaks ? "1" : "0") << (many ? "1" : "0") << hx((unsigned long long)total) << (mnote ? "1" : "0") << hx(es.size());
     for (auto& e : es) o << hz(e.addr) << hx(e.size) << hx(e.number) << hx(e.file) << hz(e.line) << hx((unsigned)e.kind);
 }
 
@@ -112,7 +123,8 @@ int main()
 {
     MemoryLeakWarningPlugin::turnOffNewDeleteOverloads();
     signal(SIGALRM, onAlarm);
-    for (unsigned i = 0; i < 256; i++) fileNames.push_back("f" + hx(i) + ".c");
+    for (unsigned i = 0; i < 256; i++)
+        fileNames.push_back("f" + hx(i) + (i < 0x80 ? std::string() : "_" + std::string(8 + 2 * (i & 0x3f), 'L')) + ".c");
     stride = (8 * HP + CAP + 7) & ~(size_t)7;
     arena = (char*)malloc(NSLOTS * stride + 64);
     arena = (char*)(((uintptr_t)arena + 15) & ~(uintptr_t)15);
@@ -126,7 +138,8 @@ int main()
         bool sep = t.u() != 0;
         nodepool_used = 0;
         Recorder rec;
-        if (sigsetjmp(hangJmp, 1)) { PlatformSpecificRealloc = savedRealloc; o << "HANG"; o.flush(); continue; }
+        failWhich = 0;
+        if (sigsetjmp(hangJmp, 1)) { PlatformSpecificRealloc = savedRealloc; failWhich = 0; o << "HANG"; o.flush(); continue; }
         alarm(2);
         MemoryLeakDetector* det = new MemoryLeakDetector(&rec);
         int cur = 0;    // 0 disabled, 1 enabled, 2 checking: what the harness asked for last
@@ -158,6 +171,25 @@ int main()
                 next_real = nullptr;
                 if (got && got != real_of(na)) { fprintf(stderr, "harness: reallocMemory returned another address\n"); exit(3); }
                 o << "F" << (rec.nonalloc ? "1" : "0") << (rec.other ? "1" : "0");
+                if (rec.nonalloc || rec.other) clearBuffer();
+            }
+            else if (op == "af" || op == "rf") {
+                // a request the underlying allocator refuses
+                char* mem = nullptr;
+                if (op == "rf") { std::string as = t.next(); mem = as == "~" ? nullptr : real_of(strtoull(as.c_str(), nullptr, 16)); }
+                size_t sz = t.u(); unsigned k = t.n(); unsigned f = t.n(); size_t line = t.u(); unsigned w = t.n();
+                if (w != 1 && w != 2) { fprintf(stderr, "harness: which call fails?\n"); exit(3); }
+                failWhich = (w == 2 && sep) ? 2 : 1;           // no separate record with the inline layout: the block fails
+                next_real = nullptr;
+                char* got;
+                if (op == "af") got = det->allocMemory(kindOf(k), sz, fileName(f), line, sep);
+                else {
+                    PlatformSpecificRealloc = arena_realloc;
+                    got = det->reallocMemory(kindOf(k), mem, sz, fileName(f), line, sep);
+                    PlatformSpecificRealloc = savedRealloc;
+                }
+                failWhich = 0;
+                o << "F" << (rec.nonalloc ? "1" : "0") << ((rec.other || got) ? "1" : "0");
                 if (rec.nonalloc || rec.other) clearBuffer();
             }
             else if (op == "dis") { det->disable(); cur = 0; }
